@@ -1,4 +1,459 @@
 package vc
 
-func CmdCheck(args []string) int  { return 2 }
-func CmdReplay(args []string) int { return 2 }
+import (
+	"bufio"
+	"encoding/json"
+	"flag"
+	"fmt"
+	"os"
+	"path/filepath"
+	"regexp"
+	"sort"
+	"strconv"
+	"strings"
+	"time"
+)
+
+const verifDir = "/verif"
+
+type knownFinding struct {
+	Property   string
+	Obligation string
+	Text       string
+}
+
+func loadKnown(path string) (known []knownFinding, fixed []string) {
+	f, err := os.Open(path)
+	if err != nil {
+		return
+	}
+	defer f.Close()
+	sc := bufio.NewScanner(f)
+	re := regexp.MustCompile(`^known:\s+property=(\S+)\s+obligation=(\S+)\s*(.*)$`)
+	for sc.Scan() {
+		l := strings.TrimSpace(sc.Text())
+		if m := re.FindStringSubmatch(l); m != nil {
+			known = append(known, knownFinding{m[1], m[2], m[3]})
+		} else if strings.HasPrefix(l, "fixed:") {
+			fixed = append(fixed, l)
+		}
+	}
+	return
+}
+
+func hasProp(ps []string, p string) bool {
+	for _, x := range ps {
+		if x == p {
+			return true
+		}
+	}
+	return false
+}
+
+// pkgsForProperty scans the contract files for the property id and returns package patterns.
+func pkgsForProperty(repo, prop string) []string {
+	var dirs []string
+	seen := map[string]bool{}
+	filepath.Walk(repo, func(path string, info os.FileInfo, err error) error {
+		if err != nil || info.IsDir() || !strings.HasSuffix(path, "_verif.go") {
+			return nil
+		}
+		b, err := os.ReadFile(path)
+		if err != nil {
+			return nil
+		}
+		if strings.Contains(string(b), prop) {
+			d := filepath.Dir(path)
+			rel, _ := filepath.Rel(repo, d)
+			if !seen[rel] {
+				seen[rel] = true
+				dirs = append(dirs, "./"+rel)
+			}
+		}
+		return nil
+	})
+	sort.Strings(dirs)
+	return dirs
+}
+
+type evidence struct {
+	PropertyID  string                 `json:"property_id"`
+	Tier        string                 `json:"tier"`
+	Seed        int                    `json:"seed"`
+	Level       string                 `json:"level"`
+	Coverage    map[string]interface{} `json:"coverage"`
+	Assumptions []string               `json:"assumptions"`
+	WallS       float64                `json:"wall_s"`
+	Violations  int                    `json:"violations"`
+}
+
+func CmdCheck(args []string) int {
+	fs := flag.NewFlagSet("check", flag.ExitOnError)
+	prop := fs.String("property", "", "property id")
+	tier := fs.String("tier", "quick", "quick|thorough")
+	repo := fs.String("repo", "/repo", "repository")
+	ext := fs.String("ext", filepath.Join(verifDir, "specs/ext"), "external specs")
+	updateBaseline := fs.Bool("update-baseline", false, "rewrite baseline_obligations for this property (deliberate act)")
+	fs.Parse(args)
+	if t := os.Getenv("VERIF_TIER"); t == "quick" || t == "thorough" {
+		*tier = t
+	}
+	seed := 0
+	if s := os.Getenv("VERIF_SEED"); s != "" {
+		seed, _ = strconv.Atoi(s)
+	}
+	if *prop == "" {
+		fmt.Fprintln(os.Stderr, "check: -property required")
+		return 2
+	}
+	t0 := time.Now()
+	evPath := filepath.Join(verifDir, "evidence", *prop+".json")
+	os.MkdirAll(filepath.Dir(evPath), 0o755)
+	os.Remove(evPath)
+
+	pats := pkgsForProperty(*repo, *prop)
+	if len(pats) == 0 {
+		fmt.Printf("UNDECIDED property=%s no contract mentions this property\n", *prop)
+		return 2
+	}
+	en, err := Load(*repo, pats, "verif")
+	if err != nil {
+		fmt.Printf("UNDECIDED property=%s load error: %v\n", *prop, err)
+		return 2
+	}
+	if err := en.CS.LoadRepoContracts(en.RepoPkgDirs()); err != nil {
+		fmt.Printf("UNDECIDED property=%s contract error: %v\n", *prop, err)
+		return 2
+	}
+	if err := en.CS.LoadExtDir(*ext); err != nil {
+		fmt.Printf("UNDECIDED property=%s external spec error: %v\n", *prop, err)
+		return 2
+	}
+	loadS := time.Since(t0).Seconds()
+
+	// functions under contract for this property
+	var keys []string
+	for k, fc := range en.CS.Funcs {
+		if fc.Trusted || fc.External {
+			continue
+		}
+		if hasProp(fc.Props, *prop) || clausesMention(fc, *prop) {
+			keys = append(keys, k)
+		}
+	}
+	sort.Strings(keys)
+	if len(keys) == 0 {
+		fmt.Printf("UNDECIDED property=%s no function under contract\n", *prop)
+		return 2
+	}
+	timeout := 10 * time.Second
+	if *tier == "thorough" {
+		timeout = 60 * time.Second
+	}
+	work := filepath.Join(verifDir, "work", *prop)
+	os.RemoveAll(work)
+	cfg := SolverCfg{Timeout: timeout, WorkDir: work, Parallel: 16, Solvers: []string{"z3new", "z3", "cvc5"}, Seed: seed}
+
+	var all []*Obligation
+	var covers []*Obligation
+	var toolErrs []string
+	notes := map[string]bool{}
+	trusted := map[string]bool{}
+	funcs := []string{}
+	genS := 0.0
+	for _, k := range keys {
+		fc := en.CS.Funcs[k]
+		t1 := time.Now()
+		res := en.VerifyFunc(fc)
+		genS += time.Since(t1).Seconds()
+		if res.Err != "" {
+			toolErrs = append(toolErrs, fmt.Sprintf("%s: %s", k, res.Err))
+			continue
+		}
+		funcs = append(funcs, shortKey(k))
+		n := 0
+		for _, o := range res.Obls {
+			if o.Kind == "cover" {
+				covers = append(covers, o)
+				continue
+			}
+			if hasProp(o.Props, *prop) {
+				all = append(all, o)
+				n++
+			}
+		}
+		if n == 0 {
+			toolErrs = append(toolErrs, fmt.Sprintf("%s: contract generated no obligation for %s (vacuous)", k, *prop))
+		}
+		for _, s := range res.Notes {
+			notes[s] = true
+		}
+		for _, s := range res.Trusted {
+			trusted[s] = true
+		}
+	}
+	t2 := time.Now()
+	Discharge(all, cfg)
+	solveS := time.Since(t2).Seconds()
+	// cover (vacuity) probes: "false" must NOT be provable at the exits
+	ccfg := cfg
+	ccfg.Timeout = 2 * time.Second
+	ccfg.WorkDir = filepath.Join(work, "cover")
+	Discharge(covers, ccfg)
+	vacuous := []string{}
+	for _, c := range covers {
+		if c.Status == "discharged" && c.Solver != "trivial" {
+			vacuous = append(vacuous, c.Name)
+		}
+	}
+
+	known, fixed := loadKnown(filepath.Join(verifDir, "known_findings.txt"))
+	baseline := loadBaseline(filepath.Join(verifDir, "baseline_obligations.json"))
+	inBaseline := map[string]bool{}
+	for _, n := range baseline[*prop] {
+		inBaseline[n] = true
+	}
+
+	discharged, counted := 0, 0
+	bySolver := map[string]int{}
+	solverSecs := 0.0
+	var violations, undecided, knownHit []string
+	bounded := 0
+	var samples []map[string]interface{}
+	var names []string
+	for _, o := range all {
+		names = append(names, o.Name)
+		isKnown := false
+		for _, kf := range known {
+			if kf.Property == *prop && kf.Obligation == o.Name {
+				isKnown = true
+				if o.Status != "discharged" {
+					knownHit = append(knownHit, fmt.Sprintf("KNOWN-FINDING: property=%s obligation=%s %s", *prop, o.Name, kf.Text))
+				}
+			}
+		}
+		if isKnown && o.Status != "discharged" {
+			continue
+		}
+		counted++
+		solverSecs += o.Seconds
+		if o.Bounded > 0 {
+			bounded++
+		}
+		if o.Status == "discharged" {
+			discharged++
+			bySolver[o.Solver]++
+			if len(samples) < 12 && o.Solver != "trivial" && (len(samples) < 4 || o.Kind == "ensures" || o.Kind == "inv-preserved") {
+				samples = append(samples, map[string]interface{}{"obligation": o.Name, "kind": o.Kind, "clause": o.Clause, "pos": o.Pos,
+					"smt_bytes": o.Size, "backend": o.Solver, "seconds": round3(o.Seconds)})
+			}
+			continue
+		}
+		// failed or unknown
+		rp := writeReplay(*prop, o, en)
+		suffix := ""
+		if !rp.Replayed {
+			suffix = " no-failing-input-found"
+		}
+		if inBaseline[o.Name] || rp.Replayed || len(baseline[*prop]) == 0 {
+			violations = append(violations, fmt.Sprintf("VIOLATION property=%s replay=%s%s", *prop, rp.Path, suffix))
+		} else {
+			undecided = append(undecided, fmt.Sprintf("UNDECIDED property=%s obligation=%s status=%s (new obligation, no replay) replay=%s", *prop, o.Name, o.Status, rp.Path))
+		}
+	}
+	if len(samples) == 0 && len(all) > 0 {
+		o := all[0]
+		samples = append(samples, map[string]interface{}{"obligation": o.Name, "kind": o.Kind, "backend": o.Solver})
+	}
+
+	if *updateBaseline {
+		var ok []string
+		for _, o := range all {
+			if o.Status == "discharged" {
+				ok = append(ok, o.Name)
+			}
+		}
+		sort.Strings(ok)
+		baseline[*prop] = ok
+		saveBaseline(filepath.Join(verifDir, "baseline_obligations.json"), baseline)
+	}
+
+	var assumptions []string
+	for s := range trusted {
+		fc := en.CS.Funcs[s]
+		kind := "trusted contract (assumed, body not verified)"
+		if fc != nil && fc.External {
+			kind = "external specification (assumed)"
+		}
+		assumptions = append(assumptions, kind+": "+s)
+	}
+	for s := range notes {
+		assumptions = append(assumptions, "unmodelled: "+s)
+	}
+	sort.Strings(assumptions)
+	assumptions = append(assumptions,
+		"integers: int/int64/uint/uintptr are SMT Ints reduced with the machine's exact wrap-around at every operation; 8/16/32-bit types and uint64 are bit-vectors; the BV<->Int conversion functions are axiomatised (range, inverse, monotone, ground literals), not interpreted",
+		"memory: objects carry allocation stamps; values read from the heap are assumed well-formed (0<=len<=cap<=2^48, references allocated)",
+		"sequential semantics only: goroutine bodies are not executed in the spawner, channel operations and select are nondeterministic, sync.Mutex gives mutual exclusion",
+		"callee contracts of other properties are assumed at call sites (modular verification); every contract is discharged under the property it is tagged with",
+		"go/packages + go/ssa (x/tools v0.29.0) lower the source faithfully; z3 4.8.12, z3 5.1.0, cvc5 1.0 are sound for unsat",
+	)
+	for _, f := range fixed {
+		_ = f
+	}
+
+	ev := evidence{PropertyID: *prop, Tier: *tier, Seed: seed, Level: "proof", Assumptions: assumptions,
+		WallS: round3(time.Since(t0).Seconds()), Violations: len(violations)}
+	ev.Coverage = map[string]interface{}{
+		"obligations":      counted,
+		"discharged":       discharged,
+		"checker_cmd":      fmt.Sprintf("/verif/bin/govc check -property %s -tier %s (obligations generated from /repo's working tree by the govc VC generator; each is one SMT-LIB file under /verif/work/%s raced on z3-new 5.1.0, z3 4.8.12, cvc5 1.0)", *prop, *tier, *prop),
+		"trusted_base":     []string{"govc VC generator (/verif/engine)", "go/packages+go/ssa x/tools v0.29.0", "z3 4.8.12", "z3 5.1.0", "cvc5 1.0", "external specs in /verif/specs/ext", "trusted contracts listed under assumptions"},
+		"functions_under_contract": funcs,
+		"by_backend":       bySolver,
+		"solver_seconds":   round3(solverSecs),
+		"load_seconds":     round3(loadS),
+		"vcgen_seconds":    round3(genS),
+		"solve_wall_seconds": round3(solveS),
+		"bounded_obligations": bounded,
+		"known_findings_hit": len(knownHit),
+		"cover_probes":     len(covers),
+		"cover_probes_vacuous": len(vacuous),
+		"tool_errors":      toolErrs,
+		"samples":          samples,
+		"explanation":      "every obligation is (path condition and assumptions) => goal, negated and checked unsat; obligations counted here exclude those listed in known_findings.txt",
+	}
+	b, _ := json.MarshalIndent(ev, "", " ")
+	os.WriteFile(evPath, b, 0o644)
+
+	for _, l := range knownHit {
+		fmt.Println(l)
+	}
+	for _, l := range violations {
+		fmt.Println(l)
+	}
+	for _, l := range undecided {
+		fmt.Println(l)
+	}
+	for _, e := range toolErrs {
+		fmt.Printf("UNDECIDED property=%s tool-error %s\n", *prop, e)
+	}
+	for _, v := range vacuous {
+		fmt.Printf("UNDECIDED property=%s vacuous: false is provable at %s\n", *prop, v)
+	}
+	fmt.Printf("property=%s tier=%s functions=%d obligations=%d discharged=%d known=%d violations=%d undecided=%d wall=%.1fs (load %.1fs, vcgen %.1fs, solve %.1fs)\n",
+		*prop, *tier, len(funcs), counted, discharged, len(knownHit), len(violations), len(undecided)+len(toolErrs)+len(vacuous), time.Since(t0).Seconds(), loadS, genS, solveS)
+	if len(violations) > 0 {
+		return 1
+	}
+	if len(undecided)+len(toolErrs)+len(vacuous) > 0 {
+		return 2
+	}
+	return 0
+}
+
+func round3(f float64) float64 { return float64(int(f*1000+0.5)) / 1000 }
+
+func clausesMention(fc *FuncContract, p string) bool {
+	for _, cs := range [][]*Clause{fc.Requires, fc.Ensures, fc.Asserts} {
+		for _, c := range cs {
+			if hasProp(c.Props, p) {
+				return true
+			}
+		}
+	}
+	for _, l := range fc.Loops {
+		for _, c := range l.Invariants {
+			if hasProp(c.Props, p) {
+				return true
+			}
+		}
+	}
+	return false
+}
+
+func loadBaseline(path string) map[string][]string {
+	out := map[string][]string{}
+	b, err := os.ReadFile(path)
+	if err != nil {
+		return out
+	}
+	json.Unmarshal(b, &out)
+	return out
+}
+
+func saveBaseline(path string, m map[string][]string) {
+	b, _ := json.MarshalIndent(m, "", " ")
+	os.WriteFile(path, b, 0o644)
+}
+
+type replayResult struct {
+	Path     string
+	Replayed bool
+}
+
+type replayFile struct {
+	Property   string `json:"property"`
+	Obligation string `json:"obligation"`
+	Function   string `json:"function"`
+	Kind       string `json:"kind"`
+	Clause     string `json:"clause,omitempty"`
+	Pos        string `json:"pos,omitempty"`
+	Status     string `json:"status"`
+	Solver     string `json:"solver"`
+	SolverOut  string `json:"solver_output"`
+	Model      string `json:"model,omitempty"`
+	SMTFile    string `json:"smt_file"`
+	Replayed   bool   `json:"replayed_on_real_code"`
+	ReplayNote string `json:"replay_note"`
+	ReplayTest string `json:"replay_test,omitempty"`
+	ReplayOut  string `json:"replay_output,omitempty"`
+}
+
+func writeReplay(prop string, o *Obligation, en *Engine) replayResult {
+	dir := filepath.Join(verifDir, "replays", prop)
+	os.MkdirAll(dir, 0o755)
+	path := filepath.Join(dir, sanitizeFile(o.Name)+".json")
+	rf := replayFile{Property: prop, Obligation: o.Name, Function: o.Func, Kind: o.Kind, Clause: o.Clause, Pos: o.Pos,
+		Status: o.Status, Solver: o.Solver, SolverOut: o.Output, Model: o.Model,
+		SMTFile: filepath.Join(verifDir, "work", prop, sanitizeFile(o.Name)+".smt2")}
+	rf.ReplayNote = "no concrete replay generated for this obligation"
+	if o.Status == "failed" && o.Model != "" {
+		tryReplay(&rf, o, en)
+	}
+	b, _ := json.MarshalIndent(rf, "", " ")
+	os.WriteFile(path, b, 0o644)
+	return replayResult{Path: path, Replayed: rf.Replayed}
+}
+
+// CmdReplay prints a replay file and re-runs its test (if any) against /repo.
+func CmdReplay(args []string) int {
+	if len(args) < 1 {
+		fmt.Fprintln(os.Stderr, "usage: govc replay <file>")
+		return 2
+	}
+	b, err := os.ReadFile(args[0])
+	if err != nil {
+		fmt.Fprintln(os.Stderr, err)
+		return 2
+	}
+	var rf replayFile
+	if err := json.Unmarshal(b, &rf); err != nil {
+		fmt.Fprintln(os.Stderr, err)
+		return 2
+	}
+	fmt.Printf("obligation: %s\nfunction:   %s\nclause:     %s\nstatus:     %s (%s)\n", rf.Obligation, rf.Function, rf.Clause, rf.Status, rf.Solver)
+	if rf.ReplayTest != "" {
+		out, failed := runReplayTest(rf.Function, rf.ReplayTest)
+		fmt.Println(out)
+		if failed {
+			fmt.Println("replay: the violated clause fails on the real code")
+			return 1
+		}
+		fmt.Println("replay: the real code does not fail on these inputs")
+		return 0
+	}
+	fmt.Println(rf.ReplayNote)
+	fmt.Println(rf.SolverOut)
+	return 1
+}
